@@ -264,15 +264,17 @@ Proof.
   unfold try_restarted. destruct (get s u) as [a|]; [|intros H; inversion H; subst; apply NT_refl].
   destruct (a_children a); [|intros H; inversion H; subst; apply NT_refl].
   destruct (a_st a); try (intros H; inversion H; subst; apply NT_refl).
+  destruct (provide s (a_tok a)) as [s0 inst] eqn:Ep. intros H.
+  assert (K0 : keep s s0) by (apply keep_same_actors; unfold provide in Ep; inversion Ep; subst; reflexivity).
+  apply (NT_trans u s s0); [apply NT_keep; exact K0|]. revert H.
   apply (bind_rel (NT u)); [apply NT_trans| |].
   - intros s1 o1 p1 E. apply NT_keep. eapply keep_handle; exact E.
   - intros s1 s2 o2 p2. apply (bind_rel (NT u)); [apply NT_trans| |].
     + intros s3 o3 p3 E. apply NT_keep. eapply keep_handle; exact E.
-    + intros s3 s4 o4 p4. destruct (provide s3 (a_tok a)) as [s5 inst] eqn:Ep. intros H. apply keep_start_instance in H.
-      assert (K5 : keep s3 s5) by (apply keep_same_actors; unfold provide in Ep; inversion Ep; subst; reflexivity).
-      eapply NT_trans; [apply NT_keep; exact K5|]. eapply NT_trans; [|apply NT_keep; exact H].
+    + intros s3 s4 o4 p4. intros H. apply keep_start_instance in H.
+      eapply NT_trans; [|apply NT_keep; exact H].
       eapply NT_trans; [|apply NT_keep, keep_deliver_sys].
-      intros b Hb. exists (w_st Alive (w_inst inst b)). split; [exact (get_upd_actor_same s5 u (fun b => w_st Alive (w_inst inst b)) b Hb)|]. cbn [a_st w_st]. discriminate.
+      intros b Hb. exists (w_st Alive (w_inst inst b)). split; [exact (get_upd_actor_same s3 u (fun b => w_st Alive (w_inst inst b)) b Hb)|]. cbn [a_st w_st]. discriminate.
 Qed.
 
 Lemma FO_apply_directive s u r d snd s' o p : apply_directive roles s u r d snd = (s', o, p) -> FO u s s'.
